@@ -124,9 +124,15 @@ CLAIMED.update({
              "the caller's key/value buffers right after every put, keep every copy handed out by a copying accessor with "
              "a private duplicate and re-compare after later replace/remove/clear and after the container is released "
              "(a retained internal pointer is a use-after-free under ASan).",
-        note="PARTIAL: the independence clause is model-by-type + correspondence, not a theorem about addresses (a block-"
-             "heap model was planned in DESIGN.md and not built). Retained-copy streams currently cover the tree table; "
-             "list/vector/hash-table harnesses release caller buffers after each call under ASan.",
+        note="Address-level layer (Props/C12Mem.lean): a block-heap model of the library's copy discipline (qmemdup/strdup "
+             "on insertion, fresh copies for newmem/pop/find_min/static get, owned block for newmem=false) with theorems "
+             "for ALL interleavings of container operations and caller scribble/free actions: owned blocks are live, "
+             "distinct and disjoint from every caller block (owned_disjoint), observations do not depend on caller "
+             "scribbles (noninterference, put_get_reads_bytes_at_put_time), returned copies survive replace/remove/"
+             "release (copy_survives), newmem=false aliases the stored block (nocopy_aliases), release frees everything "
+             "(release_frees_all). The heap model is generic (not generated from each container's code); that each C call "
+             "site follows the discipline is tied by the scribble / retained-copy correspondence (tree table streams; the "
+             "other harnesses release caller buffers after each call under ASan).",
         technique="Lean 4 refinement corollaries + scribble/retained-copy correspondence under ASan",
         design="7/C12"),
     "C15": dict(
@@ -152,14 +158,18 @@ CLAIMED.update({
              "argument list, quoting style, escape choice and blank layout), ac_number and ac_bool (the documented "
              "classifiers, every spelling in any case, rewrite to 1/0), ini_roundtrip (documents with sections, comments, "
              "${name}/${%ENV}/${!cmd} references parse to exactly the expected entries in order, with section prefixes "
-             "and marker entries, references resolved to the value in effect), ac_accept_iff_partial (FLAT documents: "
-             "for every option table and both flags the callback stream and the count / line of first offence equal the "
-             "declarative reading of the documentation); constants regenerated from the headers. Correspondence: "
+             "and marker entries, references resolved to the value in effect), ac_callbacks / ac_accept_iff (for every "
+             "option table, flags, default handler and every document of directives and arbitrarily nested sections in "
+             "every layout: the callback stream - otype, section id, accumulated section bits, level, parent chain, "
+             "normalised argv, close callbacks with the opening directive's data - and the count, or the line of the "
+             "first offence, equal the declarative reading of the documentation; accepted iff Conforms); constants "
+             "regenerated from the headers. Correspondence: "
              "grammar-generated conforming and offending documents x option tables (take counts, types, scopes, flags), "
              "nesting, all bool spellings, number forms; reference oracle computed from the grammar value.",
-        note="PARTIAL: ac_accept_iff is proved for flat documents only (the induction over nested sections, close "
-             "callbacks and refusing callbacks is missing; those are covered by the correspondence and the oracle); "
-             "ini_roundtrip excludes nested references and literal $ in values. trusted: Lean kernel, hand transcription "
+        note="ac_accept_iff / ac_callbacks are proved for ARBITRARILY NESTED, properly closed sections incl. refusing "
+             "callbacks (induction over the document tree); not covered by a theorem: a last line without newline, "
+             "over-long (chunked) lines, unclosed/mismatched sections (correspondence only); ini_roundtrip excludes "
+             "nested references and literal $ in values. trusted: Lean kernel, hand transcription "
              "(validated on explored documents), translator/confconsts.py, gcc/ASan; C locale. Four defects of the pinned "
              "tree repaired first.",
         technique="Lean 4 proof (simulation of the raw tokenizer, classifier equalities, document induction) + K-gen constants + grammar-based differential correspondence",
